@@ -94,7 +94,7 @@ def ctx_abs(node, ref_line=None):
 
 
 def gen_ctx_nodes(rng):
-    counter = [0]
+    counter = [rng.randint(0, 40)]   # the id also selects which real class stands for an inline / block node
 
     def fresh():
         counter[0] += 1
@@ -180,7 +180,8 @@ class C07(core.PropertyCheck):
 
     def generate(self, rng, budget, tier):
         if tier != "search":
-            for nodes in ([], [{"k": "para", "id": 1, "c": []}], [{"k": "inl", "id": 1}], [{"k": "blk", "id": 1}],
+            for nodes in ([], [{"k": "para", "id": 1, "c": []}], [{"k": "inl", "id": 1}], [{"k": "blk", "id": 1}], [{"k": "blk", "id": 2}],
+                          [{"k": "blk", "id": 3}], [{"k": "blk", "id": 4}], [{"k": "blk", "id": 5}], [{"k": "inl", "id": 2}], [{"k": "inl", "id": 3}],
                           [{"k": "para", "id": 2, "c": [{"k": "inl", "id": 1}]}],
                           [{"k": "para", "id": 2, "c": [{"k": "inl", "id": 1}]}, {"k": "para", "id": 4, "c": [{"k": "inl", "id": 3}]}]):
                 yield {"kind": "ctx", "nodes": nodes}
